@@ -3,7 +3,7 @@
    length :: codes; decimals as sign, mantissa, scale. *)
 From Coq Require Import List NArith ZArith QArith Qcanon Bool.
 From ACB Require Import Base.Outcome Base.QcExtra Base.Fit Base.Arith Model.Tx Model.Ledger Model.Sfl
-     Model.DeltaList Model.App Model.CsvFields Model.CsvTable Model.Summary Model.SummaryObs Exec.Codec.
+     Model.DeltaList Model.App Model.CsvFields Model.CsvTable Model.Summary Model.SummaryObs Model.SummaryApp Exec.Codec.
 Import ListNotations.
 Local Open Scope Z_scope.
 
@@ -160,19 +160,7 @@ Definition otx (t : tx) : list Z :=
   [Z.of_N (t_sec t); t_td t; t_sd t; Z.of_N (af_id (t_af t)); obool (af_reg (t_af t));
    obool (af_dflt (t_af t)); obool (t_glob t); Z.of_N (t_ri t)] ++ oaction (t_act t).
 
-Section Summaries.
-  Variable A : arith.
-  (* make_aggregate_summary_txs: securities in name order *)
-  Fixpoint all_summaries (latest : Z) (annual : bool) (secs : list (N * (list delta * option stop)))
-    : res (list tx) :=
-    match secs with
-    | [] => Ok []
-    | (_, (ds, _)) :: r =>
-        one <- make_summary A latest ds annual ;;
-        rest <- all_summaries latest annual r ;;
-        Ok (one ++ rest)
-    end.
-End Summaries.
+(* make_aggregate_summary_txs: Model/SummaryApp.v all_summaries (securities in name order) *)
 
 (* 20: arith, annual, date, rows ->
    status of the summary, summary rows, re-run of (summary rows ++ rows after
@@ -192,6 +180,7 @@ Definition run_summary : P (list Z) :=
                      [0; obool (K1_of A latest annual ds0); obool (K2_of A latest annual ds0);
                       obool (K3_of latest ds0); obool (K4_of latest ds0); obool (roundtrip_of A latest annual rows ds0);
                       obool (roundtrip_obs_of A latest annual rows ds0);
+                      obool (app_roundtrip A true latest annual rows);
                       Z.of_nat (length sums)] ++ flat_map otx sums ++ Z.of_nat (length (oapp rerun)) :: oapp rerun ++ oapp full
                  | Rej e => [2; orej e]
                  | Panic p => 3 :: opanic p
